@@ -248,6 +248,42 @@ def eq_is_conjunction(prog: Program, res, rule: str, ci: ClassInfo, eq) -> None:
             if same_type and all(same_type) and len(same_type) == len(lits):  # (nothing else was decided on this path)
                 res.violation(rule, eq, p.node or eq.node, f"{ci.name}.__eq__ gives up ({unparse(v)}) for an operand that IS of the same type: two equal containers never compare equal (Python falls back to identity), compatibility checks built on `==` reject everything", key_extra="eq-gives-up-same-type")
                 return
+    if eq.name == "__eq__":
+        # the loop form (`for part: if a.part != b.part: return False` … `return True`): a constant True is returned
+        # only on paths on which no component was found different, a constant False only where one was; and both occur
+        me_, ot_ = (eq.param_names() + ["", ""])[:2]
+
+        def differs(t, pol) -> bool | None:
+            """does the decision (t, pol) say that components of the two operands differ?  None: another kind of test"""
+            for x in ast.walk(t):
+                if isinstance(x, ast.Compare) and len(x.ops) == 1 and isinstance(x.ops[0], (ast.Eq, ast.NotEq)):
+                    names = {y.id for y in ast.walk(x) if isinstance(y, ast.Name)}
+                    if me_ in names and ot_ in names:
+                        return (isinstance(x.ops[0], ast.NotEq)) == pol
+            return None
+
+        consts = [(p, _sx.strip_wrappers(p.value).value) for p in paths if p.outcome == "return" and p.value is not None and isinstance(_sx.strip_wrappers(p.value), ast.Constant) and isinstance(_sx.strip_wrappers(p.value).value, bool)]
+        decided = [(p, val_, [d for d in (differs(t, pol) for t, pol in p.literals()) if d is not None]) for p, val_ in consts]
+        if any(ds for _p, _v, ds in decided):
+            for p, val_, ds in decided:
+                if val_ is True and any(ds):
+                    res.violation(rule, eq, p.node or eq.node, f"{ci.name}.__eq__ returns True on a path on which components of the operands were found different [{p.cond_text()[:80]}]", key_extra="eq-true-when-different")
+                    return
+                if val_ is False and ds and not any(ds):
+                    res.violation(rule, eq, p.node or eq.node, f"{ci.name}.__eq__ returns False because components of the operands are EQUAL [{p.cond_text()[:80]}]: an object does not compare equal to an identical copy of itself", key_extra="eq-false-when-equal")
+                    return
+            if not any(v_ is True for _p, v_, _d in decided):
+                res.violation(rule, eq, eq.node, f"{ci.name}.__eq__ never returns True for two objects of the same type", key_extra="eq-never-true")
+                return
+            if not any(v_ is False and any(ds) for _p, v_, ds in decided):
+                res.violation(rule, eq, eq.node, f"{ci.name}.__eq__ never returns False for components that differ: all objects of the type compare equal", key_extra="eq-never-false")
+                return
+            res.ok(rule, res.site(eq, "component loop"), "True only when no component differs, False when one does", nontrivial=False)
+        elif consts and not any(isinstance(_sx.strip_wrappers(p.value), (ast.BoolOp, ast.Compare, ast.Call)) for p in paths if p.outcome == "return" and p.value is not None):
+            # only constants are returned and no comparison of components decides between them
+            if any(v_ is True for _p, v_ in consts) and ci.name != "":
+                res.violation(rule, eq, eq.node, f"{ci.name}.__eq__ returns constants without comparing any component of the two operands: all objects of the type compare equal", key_extra="eq-compares-nothing")
+                return
     for p in paths:
         if p.outcome != "return" or p.value is None:
             continue
